@@ -259,6 +259,16 @@ class Conv:
         self.ncall = 0
         self.points = []  # (kind, op) for every setup / launch in pre-order
         self.calltag = {}
+        # ids follow the sorted names (PullSetupOpsOutOfLoops orders hoisted fields by name)
+        names = set()
+        for op in f.walk():
+            if isinstance(op, accfg.SetupOp):
+                for n, _ in op.iter_params():
+                    names.add((op.accelerator.data, n))
+            if isinstance(op, (accfg.SetupOp, accfg.LaunchOp)):
+                names.add((op.accelerator.data, None))
+        self.accs = sorted({a for a, _ in names})
+        self.fields = sorted((a, n) for a, n in names if n is not None)
         for a in f.body.block.args:
             self.var(a)
         self.body = self.block(f.body.block)
@@ -380,3 +390,37 @@ def real_inference_at_points(conv: Conv):
         st = infer_state_of(sv) if sv is not None else {}
         out.append(conv.state_json(a, st))
     return out
+
+
+def canon_ast(body):
+    """Rename data variables by order of definition (function arguments keep their ids), so that two
+    programs that differ only in SSA numbering compare equal."""
+    ren = {}
+
+    def d(v):
+        if v not in ren:
+            ren[v] = f"n{len(ren)}"
+        return ren[v]
+
+    def u(v):
+        return ren.get(v, v)
+
+    def blk(b):
+        return [st(s) for s in b]
+
+    def st(s):
+        t = s[0]
+        if t in ("setup", "ghost"):
+            return [t, s[1], [[f, u(v)] for f, v in s[2]]]
+        if t == "launch":
+            return [t, s[1], [u(v) for v in s[2]]]
+        if t == "pure":
+            args = [u(v) for v in s[3]]
+            return [t, d(s[1]), s[2], args]
+        if t == "if":
+            return [t, u(s[1]), blk(s[2]), blk(s[3])]
+        if t == "for":
+            lb, ub, stp = u(s[1]), u(s[2]), u(s[3])
+            return [t, lb, ub, stp, d(s[4]), blk(s[5])]
+        return s
+    return blk(body)
